@@ -395,3 +395,18 @@ fn deep_nested() {
     kani::cover!(matches!(v, Some(Err(_))));
     kani::cover!(matches!(v, Some(Ok(_))));
 }
+
+/// Feature set WITHOUT a mutex API (no std, no spin-lock): a single-use owned return cannot be produced; the conversion
+/// reports Err(NoMutexApi) (which MockAssembler::push turns into a construction failure, see push_rejects_responder_error),
+/// while the Clone-based path still works (C14).
+//@K props=C14 tier=thorough label=full feat=nomutex fn=<T0asIntoReturnOnce<Owning<T>>>::into_return_once[no-mutex-api]
+#[kani::proof]
+#[kani::unwind(3)]
+fn owning_once_without_mutex_api() {
+    let v: u8 = kani::any();
+    let r = <u8 as IntoReturnOnce<Owning<u8>>>::into_return_once(v);
+    assert!(matches!(r, Err(OutputError::NoMutexApi)));
+    let m = multi::<Owning<u8>, u8>(v);
+    assert!(m.output() == Some(v));
+    kani::cover!(true);
+}
